@@ -1,8 +1,8 @@
 (* C13 witnesses: refutations of the full statement on the faithful model (each is a history
    that the implementation replays identically, see findings/C13-*.json) and non-vacuity
    examples for the hypotheses of the theorems. *)
-From Coq Require Import ZArith List String Bool Arith.
-From PAFC13 Require Import Model Proofs1 Proofs2 Proofs3 Proofs4.
+From Coq Require Import ZArith List String Bool Arith Lia.
+From PAFC13 Require Import Model ClassArgs Proofs1 Proofs2 Proofs3 Proofs4 Proofs5.
 Import ListNotations.
 Open Scope string_scope.
 Open Scope list_scope.
@@ -367,3 +367,35 @@ Example db_restore_then_append :
   = [Ok AUnit; Ok AUnit; Ok AUnit; Ok AUnit;
      Ok (AItems [(["0"], LPrior 0); (["2"], LPrior 2); (["3"], LPrior 3)]); Ok (ANat 3)].
 Proof. vm_compute. reflexivity. Qed.
+
+(* ---- constructor-argument memo (ClassArgs.v): non-vacuity of C13_class_args_* ---- *)
+(* two classes of one name with different constructors exist in cls0 when classes 0 and 1 are both called "P" *)
+Definition names_shared : list string := ["P"; "P"; "Q"; "P"].
+Example class_args_now :
+  snd (class_args_run cfg_all (fst (class_args_run cfg_all [] [1; 3])) [0; 1; 0; 3])
+  = [["a"; "b"]; ["a"; "b"; "c"]; ["a"; "b"]; ["x"]].
+Proof. vm_compute. reflexivity. Qed.
+(* hypotheses of C13_class_args_key_necessary / _name_key_leaks are met by that table ... *)
+Example name_key_hypotheses_met :
+  nth 1 names_shared EmptyString = nth 0 names_shared EmptyString /\ ctor_names cfg_all 1 <> ctor_names cfg_all 0.
+Proof. split; [reflexivity | vm_compute; discriminate]. Qed.
+(* ... and the leak is the one of seeded change C13 (memo keyed by module.qualname): the narrow model composed after the
+   wide one is handed the wide constructor, and the other way round *)
+Example name_keyed_memo_leaks :
+  snd (name_keyed_run names_shared cfg_all [] [1; 0]) = [["a"; "b"; "c"]; ["a"; "b"; "c"]] /\
+  snd (name_keyed_run names_shared cfg_all [] [0; 1]) = [["a"; "b"]; ["a"; "b"]] /\
+  snd (name_keyed_run names_shared cfg_all [] [0; 2; 3]) = [["a"; "b"]; ["pos"; "w"]; ["a"; "b"]].
+Proof. repeat split; vm_compute; reflexivity. Qed.
+(* hypothesis of C13_class_args_key_sufficient met by a name key: distinct names *)
+Example name_key_sound_when_names_differ :
+  forall c d, c < 4 -> d < 4 -> nth c ["K0"; "K1"; "K2"; "K3"] EmptyString = nth d ["K0"; "K1"; "K2"; "K3"] EmptyString ->
+  ctor_names cfg_all c = ctor_names cfg_all d.
+Proof.
+  intros c d Hc Hd.
+  destruct c as [|[|[|[|c]]]]; destruct d as [|[|[|[|d]]]]; try (exfalso; lia); simpl; intro E; try reflexivity; discriminate E.
+Qed.
+(* the correspondence check accepts what the code reports and rejects the leak *)
+Example check_ccase_discriminates :
+  check_ccase (CCase cls0 [(1, Some ["a"; "b"; "c"]); (0, Some ["a"; "b"]); (0, None); (1, Some ["a"; "b"; "c"])]) = true /\
+  check_ccase (CCase cls0 [(1, Some ["a"; "b"; "c"]); (0, Some ["a"; "b"; "c"])]) = false.
+Proof. split; vm_compute; reflexivity. Qed.
